@@ -393,6 +393,38 @@ func runC18(c *Ctx) {
 	}
 
 singleDone:
+	// the patterns run on unmasked text: statements with a dollar sign (dollar-quoted literals) must be refused before them
+	{
+		dollar := false
+		for _, call := range callsIn(ext, false) {
+			if callName(call) != "strings.Contains" && callName(call) != "strings.ContainsRune" && callName(call) != "strings.IndexByte" {
+				continue
+			}
+			isDollar := false
+			for _, a := range call.Common().Args[1:] {
+				if sv, ok := constString(a); ok && sv == "$" {
+					isDollar = true
+				}
+				if k, ok := constInt(a); ok && k == '$' {
+					isDollar = true
+				}
+			}
+			if !isDollar {
+				continue
+			}
+			okAll := len(rets) > 0
+			for _, r := range rets {
+				if !guardedFalse(r, callValue(call)) {
+					okAll = false
+				}
+			}
+			if okAll {
+				dollar = true
+			}
+		}
+		c.Check(dollar, "C18.SINGLE", "ExtractTimeRange|refuses-dollar", ext.Pos(), "statements containing `$` are not pruned (the time patterns read unmasked text)", "ExtractTimeRange applies its time patterns to the unmasked WHERE clause without refusing dollar-quoted text: `host <> $$time < '2024-03-12'$$ AND time >= …` reads the literal's content as an upper bound and later partitions are not read")
+	}
+
 	// ---- OPEN
 	{
 		for _, call := range callsIn(ext, true) {
